@@ -246,6 +246,27 @@ class World:
         members = set(self.children(pkind, pi, kind))
         objs = [self.obj(kind, c) for c in cs]
         how = op.get("as", "list")
+        if op.get("xk") and f in ("discard", "remove", "isub"):
+            # operand of another node kind (for module sets: a node the same
+            # module owns through a sibling set): a non-member like any other
+            okinds = [k2 for k2 in ("sec", "prx", "sym", "bi", "blk") if k2 != kind]
+            if pkind == "mod":
+                okinds = [k2 for k2 in ("sec", "prx", "sym") if k2 != kind]
+            k2 = okinds[op["xk"] % len(okinds)]
+            other = self.obj(k2, (op.get("cs") or [0])[0] % self.n(k2))
+            if f == "discard":
+                coll.discard(other)
+            elif f == "remove":
+                try:
+                    coll.remove(other)
+                    self.failf("refine:set.remove-nonmember-no-KeyError", "%s node in %s set" % (k2, kind))
+                except KeyError:
+                    pass
+            else:
+                coll -= _oset([other])
+            if (other in coll) is not False:
+                self.failf("refine:set.contains", "%s node reported as member of a %s set" % (k2, kind))
+            return
         if f == "add":
             if not cs:
                 raise Skip()
@@ -456,8 +477,7 @@ class World:
                     if extra:
                         ms = ms[:-1] + extra
             seq = [self.obj("mod", m) for m in ms]
-            if len(set(ms)) != len(ms):
-                raise Skip()
+            dup = len(set(ms)) != len(ms)
             trial = list(model)
             try:
                 trial[sl] = [-(k + 1) for k in range(len(ms))]
@@ -479,7 +499,11 @@ class World:
                         want.append(ms[-x - 1])
                     elif x not in ms:
                         want.append(x)
-                settle(want, ambiguous=any(m in model for m in ms))
+                # the same module listed twice in the argument has no built-in
+                # counterpart under move semantics: it must end up in the list
+                # exactly once (uniqueness, membership and both ends are checked)
+                want = list(dict.fromkeys(want))
+                settle(want, ambiguous=dup or any(m in model for m in ms))
         elif f == "pop":
             has_arg = op.get("arg", False)
             try:
@@ -975,7 +999,7 @@ class World:
                         self.failf("cache:stale-entry", "%s: ir%d.get_by_uuid(%s) = %r but no such node is attached" % (where, ii, u, _nm(got)))
                         return
                 elif len(want) > 1:
-                    self.failf("cache:harness-uuid-clash", "%s: ir%d holds %d nodes with uuid %s" % (where, ii, len(want), u))
+                    self.failf("cache:two-attached-nodes-one-uuid", "%s: ir%d holds %d nodes with uuid %s" % (where, ii, len(want), u))
                     return
                 elif got is not want[0]:
                     self.failf(
